@@ -13,6 +13,7 @@ CONSTANTS
   Weights <- Blend
   Surs = {0}
   CUs <- MixedCU
+  Rts <- NoRt
   NoDst = FALSE
   OkSubsets = FALSE
   NeedConsistent = FALSE
